@@ -1,6 +1,7 @@
 package props
 
 import (
+	"strings"
 	"context"
 	"encoding/json"
 	"math"
@@ -49,6 +50,20 @@ type PEnv struct {
 func (e PEnv) EventTypeName() string { return "env." + e.Kind }
 
 func mkPEnv(id, variant int) PEnv { return PEnv{ID: id, Kind: []string{"created", "updated", "deleted"}[variant%3]} }
+
+// PSized is an event whose JSON encoding has an exact length: buffer, page and pool thresholds sit at such sizes.
+type PSized struct {
+	ID  int    `json:"id"`
+	Pad string `json:"pad"`
+}
+
+var pSizedLens = []int{4096, 65535, 65536, 65537, 32768, 262144}
+
+func mkPSized(id, variant int) PSized {
+	want := pSizedLens[variant%len(pSizedLens)]
+	base := len(mustJSON(PSized{ID: id}))
+	return PSized{ID: id, Pad: strings.Repeat("x", want-base)}
+}
 
 // payload variants for PVal
 func mkPVal(id, variant int) PVal {
@@ -237,6 +252,25 @@ func init() {
 		IDOf: func(ev any) (int, bool) { e, ok := ev.(PEnv); return e.ID, ok },
 		SubReplay: func(ctx context.Context, bus *eventbus.EventBus, subID string, h func(int)) error {
 			return eventbus.SubscribeWithReplay(ctx, bus, subID, func(e PEnv) { h(e.ID) })
+		},
+	})
+}
+
+func init() {
+	shapes = append(shapes, &shape{
+		Name: "exact-size", TypeName: eventbus.EventType(PSized{}), RT: reflect.TypeOf(PSized{}),
+		Sub: func(bus *eventbus.EventBus, h func(int), opts ...eventbus.SubscribeOption) error {
+			return eventbus.Subscribe(bus, func(e PSized) { h(e.ID) }, opts...)
+		},
+		Pub:     func(bus *eventbus.EventBus, ctx context.Context, id, v int) { pubAny(bus, ctx, mkPSized(id, v)) },
+		Marshal: func(id, v int) []byte { return mustJSON(mkPSized(id, v)) },
+		RoundTrip: func(data []byte, id, v int) bool {
+			var got PSized
+			return json.Unmarshal(data, &got) == nil && got == mkPSized(id, v)
+		},
+		IDOf: func(ev any) (int, bool) { e, ok := ev.(PSized); return e.ID, ok },
+		SubReplay: func(ctx context.Context, bus *eventbus.EventBus, subID string, h func(int)) error {
+			return eventbus.SubscribeWithReplay(ctx, bus, subID, func(e PSized) { h(e.ID) })
 		},
 	})
 }
